@@ -71,6 +71,12 @@ def case(rep, drv, rnd, i, tier):
             want = set(comp.heads_of(front[2]))
             if added != want:
                 problem = 'loading defines %s, the program has clause heads %s' % (sorted(added), sorted(want))
+        if problem is None and model[0] == 'ok' and i % 5 == 0:
+            # the same output loaded from a file whose path the engine has loaded from before
+            p2, added2 = comp.load_check_same_path(real[1])
+            if p2 is None and not (set(comp.heads_of(front[2])) <= added2):
+                p2 = 'reloading from the same path defines %s, the program has clause heads %s' % (sorted(added2), sorted(set(comp.heads_of(front[2]))))
+            problem = p2
         if problem:
             rep.violation(dict(payload, kind_of_failure=problem))
             return
